@@ -11,6 +11,8 @@ CHECKS = {
          "SHA-1 collisions outside the alphabet; handlers atomic (C20); corruption modelled as one flipped byte", MC, "looplab", "3/C01"),
  "C19": ("model_checking", "every encoding of the private flag x {.torrent, magnet} x 5 stimulus orders (peer advertising ut_pex, PEX message with a dialable address, port message, injected DHT result, clock advances) on the real event loop with PEX on and DHT configured on; frames, dial log, Stats().Addresses, DHT announcer/request set, Magnet(), private peer-id / version / user agent observed; public encodings must not be over-blocked",
          "the DHT node is not started (configured on through an in-package hook; results injected on the torrent's DHT channel); odd encodings may be read either way but consistently", MC, "looplab", "3/C19"),
+ "C20": ("model_checking", "lock-ups: every schedule with <= 2 preemptions at the lock acquisitions (session locks and bbolt's locks, made scheduler-visible) of 2-3 concurrent API calls with a running torrent loop inside a synctest bubble, lock-up = no thread resumable and nothing pending; data races: a separate free-running -race build, one scenario per public API / RPC method (method x full torrent lifecycle, .torrent and magnet), reports keyed by the two parties",
+         "scheduling points are lock acquisitions of the harness threads (handlers of the loop are atomic); the race detector judges only accesses that execute in the enumerated scenarios; RWMutex modelled with Go's writer preference", "preemption-bounded thread-schedule exploration of the implementation (CHESS-style, controlled scheduler) + happens-before race analysis over an enumerated scenario set", "threadlab", "3/C20"),
  "C02": ("exploration", "every file-length vector / padding placement / piece length / block size / read range within the stated unit-scale bounds, plus 16 KiB-scaled images and created directory trees, executed on the real geometry code and compared with a flat byte-array model; exhaustive within the bounds",
          "value-independence of geometry (one byte pattern); sizes beyond the bounds represented by their unit-scale coincidence class", ENUM, "enum", "3/C02"),
  "C03": ("model_checking", "seeding / partially seeding torrent on the real event loop: every history of <= depth leecher operations over 14 request shapes, interested, cancel, unchoke tick, for read-cache block sizes {16K,24K,128K}, cache capacities, fast / non-fast leecher; every piece frame decoded by an independent codec and compared with the ground truth, allowed-fast-only service while choked",
@@ -28,7 +30,7 @@ CHECKS = {
  "C13": ("model_checking", "magnet torrent fed by a lying and an honest peer: every history of <= depth metadata operations (right/garbage/wrong-size/unrequested/duplicate/out-of-range blocks, total_size lies, reject, request, second handshake) for metadata of 1..3 blocks, announced sizes {true,+1,-1,0,max,max+1}, 1-2 parallel downloads; adopted metadata must hash to the link, oversize never fetched, honest peer eventually adopted",
          "two peers; SHA-1 collisions outside the alphabet", MC, "looplab", "3/C13"),
  "C14": ("model_checking", "every sequence of <= 3 (thorough: dedup BFS to depth 5) registry operations (adds incl. failing ones, removes, start/stop, AddTracker, CompactDatabase + load, close + reopen) on real sessions with a 3-port range, conservation laws after every operation; resume Spec field lattice through bbolt and JSON",
-         "payloads fixed (two torrents, one magnet); concurrent callers are the threadlab part", "explicit-state exploration of operation histories on the real Session with state-key dedup", "enum", "3/C14"),
+         "payloads fixed (two torrents, one magnet); concurrent callers: thread sets of size 2-3 with <= 2 preemptions (threadlab part)", "explicit-state exploration of operation histories on the real Session with state-key dedup + preemption-bounded thread-schedule exploration", "threadlab", "3/C14"),
  "C15": ("model_checking", "byte lattice of announce fields through the real HTTP and UDP tracker clients against independent BEP 3 / BEP 15 decoders; every event/answer sequence up to the bound on the real PeriodicalAnnouncer and StopAnnouncer under virtual time (started first, completed once, interval discipline); a whole torrent run start->download->complete->stop->start on the real event loop with scripted HTTP and UDP trackers, all single deviations, comparing announce identity with the peer handshake and the stopped-only-after-accept rule",
          "tracker scripts of at most two phases; one torrent; interval discipline judged on the virtual clock", "exhaustive enumeration of operation sequences on the real actors under virtual time + stateless model checking of the event loop", "actorlab", "3/C15"),
  "C16": ("model_checking", "tier index machine explored by BFS to a fixpoint (all answer vectors, up to 2-4 concurrent calls interleaved at every point); every announce answer sequence up to the bound on the real PeriodicalAnnouncer under virtual time; the real UDP transport with 2-3 concurrent requests under every cancel/reply/expiry order; HTTP and UDP reply byte lattices",
@@ -48,6 +50,7 @@ ENGINES = [
  {"name": "enum", "path": "engine/geom, engine/paths, ... (E4 packages)", "serves_properties": [], "kind_free_text": "bounded-exhaustive enumeration of inputs / operation sequences against a reference model, on the real code"},
  {"name": "actorlab", "path": "engine/trk16, engine/limits, engine/picker, ... (E2 packages)", "serves_properties": [], "kind_free_text": "one real actor (announcer, UDP transport, tier, resource manager, picker) with scripted, gated environment under virtual time; BFS to fixpoint or exhaustive operation sequences"},
  {"name": "crashlab", "path": "engine/crash (+ patched bbolt copy via -modfile)", "serves_properties": [], "kind_free_text": "crash-point enumeration: recorded write/sync history -> all prefixes x torn writes x unsynced subsets -> recovery executions in looplab"},
+ {"name": "threadlab", "path": "engine/thread + engine/vsync (copied into the private bbolt module copy) + engine/racepass", "serves_properties": [], "kind_free_text": "CHESS-style controlled scheduler: harness threads park at every Lock/RLock of the session's and bbolt's locks, explorer picks who runs, preemption-bounded DFS; plus the free-running -race pass"},
  {"name": "looplab", "path": "engine/lab + engine/core + engine/vnet + engine/vrand + hooks-lab", "serves_properties": [], "kind_free_text": "explicit-state exploration of the real torrent event loop inside a synctest bubble: explorer-owned select, in-memory network, recording storage, scripted peers/trackers; deviation-bounded DFS over worker subprocesses"},
 ]
 NOT_BUILT = "check not built yet in this session (planned, see DESIGN.md section 3); not a statement that model checking cannot apply"
